@@ -57,7 +57,9 @@ RULE = ("histories of 10-60 operations (new slice, overwrite slice, put, put-str
         "custom (hex) escaping function; for memstore, cidlink.Memory and fsstore with each sharding function; 15% of histories write "
         "through peeked slices and 10% give a key two contents (outside the quantifier: they tie the aliasing and first/last-write "
         "models and are judged only up to that point); plus a fixed corpus with every hostile key alone, the witnesses of the "
-        "findings, the empty / one-byte block through put, put-stream (also with no chunk at all) and put-vec on every store, and "
+        "findings, a fixed family of LARGE blocks (1/2/4 MiB each -1/exact/+1, 8 MiB in thorough; Put, 3-write PutStream, PutVec; "
+        "Get/GetStream/Peek/Has; fsstore default + custom sharding incl. a reopened store, memstore, cidlink.Memory; compared by "
+        "length+MD5 against the map specification evaluated on native strings), the empty / one-byte block through put, put-stream (also with no chunk at all) and put-vec on every store, and "
         "the long-key pairs; fsstore runs in a fresh directory six levels inside a fresh parent that is listed after every operation; "
         "distinct = distinct (store, sharding, operations); non-trivial = at least 4 operations")
 
